@@ -205,6 +205,8 @@ def check_refinement(world, base, ops, run, topo):
     for aidx, (oc, val) in enumerate(run.outcomes):
         n = flips_by_actor.get(aidx, 0)
         kind = ops[aidx]["op"]
+        if kind == "noop":
+            continue
         if oc == "ok":
             attempted = not (kind == "delete_snapshot" and val is False)
             if attempted and n != 1:
